@@ -162,6 +162,9 @@ impl TheDrawFont {
             if bytes[o] == 0 {
                 break;
             }
+            if bytes.len() - o < THE_DRAW_FONT_HEADER_SIZE - (THE_DRAW_FONT_ID.len() + 2) {
+                return Err(TdfError::FileTooShort.into());
+            }
             let indicator = u32::from_le_bytes(bytes[o..(o + 4)].try_into().unwrap());
             if indicator != FONT_INDICATOR {
                 return Err(TdfError::FontIndicatorMismatch.into());
@@ -228,6 +231,9 @@ impl TheDrawFont {
                     return Err(TdfError::GlyphOutsideFontDataSize(char_offset).into());
                 }
                 char_offset += o;
+                if char_offset + 2 > bytes.len() {
+                    return Err(TdfError::DataOverflow(char_offset).into());
+                }
 
                 let width = bytes[char_offset] as usize;
                 char_offset += 1;
@@ -249,6 +255,9 @@ impl TheDrawFont {
                     if matches!(font_type, FontType::Color) {
                         if ch == 13 {
                             continue;
+                        }
+                        if char_offset >= bytes.len() {
+                            return Err(TdfError::DataOverflow(char_offset).into());
                         }
                         ch = bytes[char_offset];
                         char_offset += 1;
